@@ -21,6 +21,10 @@ Per core (Python Emulator, Rust LlamaExecutor; never compared with each other):
 * twin: two fresh cores alive at the same time, stepped alternately on identical inputs, must produce
   identical per-step traces.
 
+* runtime-split / machine-history / converging-histories: the same statement at the level of the Rust machine
+  (CoreRuntime): step(n) vs step(1) x n; a fresh machine given the architectural state of a machine with history
+  under a generated overlay map; two histories that reach the same machine state (c07_runtime.py, c07_machine.py).
+
 Architectural state/result = BA, I, X, Y, U, S, PC, the whole F byte, running/halted(/off) and the memory
 contents.  TEMP registers, call_sub_level/call_depth, Rust's IMR mirror, instruction length and read logs
 are not compared.
@@ -53,7 +57,16 @@ RULE = ("probe cases: every (prefix|none, opcode) pair of decoder-accepted encod
         "probe is a call/return-family instruction executed with non-empty call bookkeeping, or the probe "
         "address was executed by the history with different bytes); distinct = (pre, opcode, class, history "
         "shape hash).  Non-trivial split case = split point n with >= 1 step on each side; distinct = "
-        "(program hash, n).")
+        "(program hash, n).  Machine level (Rust CoreRuntime): runtime-split = generated machine scenarios x 6 "
+        "partitions of 24 steps, non-trivial when an interrupt delivery or low-power transition happened; "
+        "machine-history = generated overlay map (2-4 RAM/ROM overlays, memory card, absent slot; overlap relation, "
+        "configuration order, remove+re-add generated) x straight-line load/store program over the map's boundary "
+        "and interior addresses x state transfer into a fresh machine before every step, non-trivial when the "
+        "reference read an address covered by >= 2 overlays; converging-histories = ROM with 2-4 routes (timer "
+        "posted / program rewritten / acknowledged+re-posted ISR bits, ON key press+release) of equal cycle and "
+        "instruction count joining a common main loop + handler, non-trivial when >= 2 routes reach the join point "
+        "with identical machine state but different host-side IRQ bookkeeping and an interrupt is delivered "
+        "in the 30 compared steps after the join; distinct = case hash.")
 
 REG_FIELDS = ("BA", "I", "X", "Y", "U", "S", "PC", "F")
 CALL_FAMILY = {"CALL", "CALLF", "RET", "RETF", "RETI", "IR"}
@@ -664,16 +677,27 @@ def _rts_shard(task: Tuple[int, int, int]) -> Report:
     return RT.run_shard(seed, shard, n)
 
 
+def _mach_shard(task: Tuple[int, int, int, int]) -> Report:
+    from . import c07_machine as MC
+
+    seed, shard, n_mem, n_conv = task
+    return MC.run_shard(seed, shard, n_mem, n_conv)
+
+
 def run(ctx: Ctx) -> Report:
+    from . import c07_machine as MC
+
     rsclient.build()
     zygote()
     GEN.self_test()
+    MC.self_test()
     nshards = ctx.pick(16, 64)
     n_probe = ctx.pick(263, 700)
     n_split = ctx.pick(40, 60)
     reports = ctx.pmap(_shard, [(i, ctx.seed, ctx.tier, n_probe, n_split) for i in range(nshards)])
     n_rts = ctx.pick(120, 1200)
     reports += ctx.pmap(_rts_shard, [(ctx.seed, i, n_rts) for i in range(16)])
+    reports += ctx.pmap(_mach_shard, [(ctx.seed, i, ctx.pick(60, 500), ctx.pick(150, 1500)) for i in range(16)])
     rep = ctx.merge_reports(reports)
     rep.rule = RULE
     rep.exhaustive = False
@@ -698,6 +722,18 @@ def run(ctx: Ctx) -> Report:
         "are not used",
         "runtime-split: CoreRuntime::step(n) in one call vs step(1) x n on generated machine scenarios (timers, "
         "IMR/ISR writes, HALT/OFF/WAIT; no host events), full observation record compared at equal instruction counts",
+        "machine-history: only BA,I,X,Y,U,S,F,PC, the 256 IMEM bytes, the external array and the data of data-backed "
+        "overlays cross the transfer into the fresh CoreRuntime (timers off, IMR=0: no other device state exists); "
+        "programs are straight-line template code that never stores near itself nor touches LCD/keyboard/SIO "
+        "registers; steps after the reference PC leaves the statically known line are not judged",
+        "converging-histories: routes are judged only when the complete reported machine state at the join point "
+        "(registers, F, IMEM, hash of external memory, stack windows, power, cycle/instruction counters, timer "
+        "enable/periods/deadlines, irq_pending, in_interrupt, interrupt stack depth, delivered_masks, key latch, "
+        "keyboard FIFO length, ON-key level) is equal; ignored at the join: irq_source, last_fired, last_irq_src, "
+        "irq_isr/irq_imr mirrors (host-side bookkeeping); compared afterwards: registers, F, IMR, ISR, IMEM 00-EE, "
+        "S and U stack windows, power state.  Tails contain no IR and no RETI outside a delivered handler",
+        "machine-level subchecks exist for the Rust machine only (the Python machine has no multi-instruction step "
+        "call; its memory map and interrupt bookkeeping are covered by C11/C12)",
     ]
     return rep
 
@@ -708,6 +744,10 @@ def replay(ctx: Ctx, case: Dict[str, Any]) -> List[Violation]:
         from . import c07_runtime as RT
 
         return [v for _c, vs, _nt in RT.check_cases([case]) for v in vs]
+    if case.get("kind") in ("machine-history", "converging-histories"):
+        from . import c07_machine as MC
+
+        return MC.replay_case(case)
     zygote()
     rep = Report()
     cores: Tuple[str, ...] = ("py", "rs")
@@ -724,4 +764,11 @@ def replay(ctx: Ctx, case: Dict[str, Any]) -> List[Violation]:
 def shrink(ctx: Ctx, v: Violation) -> Violation:
     from . import c07_shrink
 
+    kind = (v.case or {}).get("kind")
+    if kind == "runtime-split":
+        return v
+    if kind in ("machine-history", "converging-histories"):
+        from . import c07_machine as MC
+
+        return MC.shrink(v)
     return c07_shrink.shrink(ctx, v, replay)
